@@ -201,7 +201,7 @@ _NP_FUNCS = {
     "swapaxes": lambda a, i, j: np.swapaxes(_arr(a), i, j),
     "take": lambda a, idx, axis=None: np.take(_arr(a), np.asarray(_index_numbers(idx)), axis=axis),
     "cross": lambda a, b: _cross(_arr(a), _arr(b)),
-    "zeros_like": lambda a, **k: np.zeros(_arr(a).shape),
+    "zeros_like": lambda a, **k: _zeros_like(a, **k),
     "empty_like": lambda a, **k: np.full(_arr(a).shape, Sym.atom("<uninitialised>"), dtype=object) if _arr(a).dtype == object else np.full(_arr(a).shape, np.nan),
     "ones_like": lambda a, **k: np.ones(_arr(a).shape),
     "atleast_2d": lambda a: np.atleast_2d(_arr(a)),
@@ -246,6 +246,19 @@ def _index_numbers(idx):
             raise NotSymbolic("symbolic index")
         out[i] = int(v.terms.get((), 0))
     return out
+
+
+def _zeros_like(a, dtype=None, **k):
+    """np.zeros_like keeps the dtype of its argument (an integer array gives integer zeros, which truncate what is
+    stored into them later); symbolic arrays give symbolic zeros."""
+    a = a if isinstance(a, np.ndarray) else _arr(a)
+    if dtype is not None:
+        return np.zeros(a.shape, dtype=dtype)
+    if a.dtype == object:
+        out = np.empty(a.shape, dtype=object)
+        out.fill(Sym.const(0))
+        return out
+    return np.zeros_like(a)
 
 
 def _numeric_only(a, what):
